@@ -59,10 +59,10 @@ OrientedPart(name, e, EL, sy, mask, vn) ==
       rot == vn % nv
       rev == (vn \div nv) % 2 = 1
       PV  == [i \in 1..nv |-> LET r == ((i - 1 + rot) % nv) + 1 IN V0[IF rev THEN nv + 1 - r ELSE r]]
-      LM  == [g \in Range(PV) |-> (CHOOSE i \in 1..nv : PV[i] = g) - 1]       \* global vertex -> part vertex
+      LM  == [g \in TRange(PV) |-> (CHOOSE i \in 1..nv : PV[i] = g) - 1]       \* global vertex -> part vertex
       ES  == IF e = 2 THEN SetToSeq(EdgeSetsOf(G)) ELSE << >>
       EM  == [m \in 1..Len(ES) |-> LET t == SetToSeq(ES[m]) IN IF MaskBit(mask, m) = 1 THEN << t[2], t[1] >> ELSE t]
-      EI  == [S \in Range(ES) |-> (CHOOSE m \in 1..Len(ES) : ES[m] = S) - 1]
+      EI  == [S \in TRange(ES) |-> (CHOOSE m \in 1..Len(ES) : ES[m] = S) - 1]
       top  == [j \in 1..Len(G) |-> [i \in 1..Len(G[j]) |-> LM[G[j][i]]]]
       i10  == IF e = 1 THEN top ELSE [m \in 1..Len(ES) |-> << LM[EM[m][1]], LM[EM[m][2]] >>]
       i20  == IF e = 2 THEN top ELSE << >>
